@@ -42,6 +42,14 @@ def seed():
 
 # ------------------------------------------------------------------------------------------ build
 _built = False
+_missing = {}
+
+
+def bin_path(name):
+    """path of a harness tool; a ToolError when it could not be built against the current tree"""
+    if name in _missing:
+        raise ToolError(f"the harness tool {name} does not build against this tree:\n" + _missing[name])
+    return os.path.join(BIN, name)
 
 
 def build():
@@ -59,7 +67,21 @@ def build():
         r = subprocess.run(["cargo", "build", "--release", "--offline"], cwd=HARNESS, env=env,
                            stdout=subprocess.PIPE, stderr=subprocess.STDOUT, text=True)
         if r.returncode != 0:
-            raise ToolError("cargo build of the harness failed:\n" + r.stdout[-4000:])
+            # the four tools use different parts of beff's public Rust API: a change of one part (say, the signature of a function
+            # only semtool calls) must not take the checks down that do not need that tool.  Build them one by one and remember
+            # which are there; bin_path() raises for a tool that is missing.
+            for b in ("tsstrip", "beffc", "semtool", "session"):
+                rb = subprocess.run(["cargo", "build", "--release", "--offline", "--bin", b], cwd=HARNESS, env=env,
+                                    stdout=subprocess.PIPE, stderr=subprocess.STDOUT, text=True)
+                if rb.returncode != 0:
+                    _missing[b] = rb.stdout[-3000:]
+                    try:
+                        os.remove(os.path.join(BIN, b))       # never run a stale binary built from another tree
+                    except OSError:
+                        pass
+            if "tsstrip" in _missing:
+                raise ToolError("cargo build of the harness failed:\n" + _missing["tsstrip"])
+            log(f"[build] tools that do not build against this tree: {sorted(_missing)}")
         client = os.path.join(RT, "node_modules", "@beff", "client")
         os.makedirs(client, exist_ok=True)
         r = subprocess.run([os.path.join(BIN, "tsstrip"), os.path.join(REPO, "packages/beff-client/src"), client],
@@ -324,7 +346,7 @@ class _Worker:
         self.q = None
 
     def start(self):
-        self.p = subprocess.Popen([os.path.join(BIN, "beffc")], stdin=subprocess.PIPE, stdout=subprocess.PIPE,
+        self.p = subprocess.Popen([bin_path("beffc")], stdin=subprocess.PIPE, stdout=subprocess.PIPE,
                                   stderr=subprocess.DEVNULL, text=True, bufsize=1)
         self.q = queue.Queue()
         t = threading.Thread(target=self._reader, args=(self.p, self.q), daemon=True)
